@@ -395,7 +395,7 @@ PROPS = {
     "C10": dict(chk=[10], n=(500, 4000), tiny=(6, 30)),
     "C11": dict(chk=[11], n=(500, 4000), tiny=(10, 50)),
     "C12": dict(chk=[12], n=(400, 3000), tiny=(0, 10)),
-    "C13": dict(chk=[1, 2, 3, 5, 6], n=(400, 3000), tiny=(0, 10)),
+    "C13": dict(chk=[1, 2, 3, 5, 6, 8], n=(400, 3000), tiny=(0, 10)),
     "C15": dict(chk=[8], n=(300, 2000), tiny=(0, 10)),
     "C16": dict(chk=[16], n=(600, 6000), tiny=(0, 0), modes=["wrapping", "checked"]),
     "C17": dict(chk=[17, 8, 2, 3], n=(300, 2500), tiny=(0, 10), modes=["wrapping", "checked"]),
@@ -900,3 +900,56 @@ ASSUMPTIONS = {}
 LEVELS = {}
 SPECIAL = {}
 extra_coverage = {}
+
+
+def special_c13(prop, tier, seed, bins, out, problems):
+    """lock-step twin comparison on the crate itself: the adaptor (cloned()/copied()) and an identical underlying
+    reference-yielding iterator are driven through the same operations under the same schedule; every event
+    (call, return with indices / chunk boundaries / lengths / end / skip behaviour, end of life) must be the same"""
+    binp = bins.get("wrapping")
+    if binp is None:
+        return
+    n = 300 if tier == "quick" else 2500
+    cases = [c for c in gen_cases.stream("C13", seed + 31, n, "wrapping") if c["env"]["adaptor"] != "none"]
+    text = "".join(gen_cases.fmt_case(c) for c in cases)
+    mblocks, order = parse_blocks(run_model(text))
+    by_id = {c["id"]: c for c in cases}
+    adapt, twin = [], []
+    for cid in order:
+        c = json.loads(json.dumps(by_id[cid]))
+        c["sched"] = sched_of(mblocks[cid])
+        adapt.append(c)
+        t = json.loads(json.dumps(c))
+        t["env"]["adaptor"] = "none"
+        twin.append(t)
+    ia, dead_a = run_impl(binp, adapt)
+    it, dead_t = run_impl(binp, twin)
+    ba, _ = parse_blocks(ia)
+    bt, _ = parse_blocks(it)
+    compared = 0
+    for c in adapt:
+        cid = c["id"]
+        la, lt = ba.get(cid), bt.get(cid)
+        if la is None or lt is None or cid in dead_a or cid in dead_t:
+            out["violations"].append(dict(case=c, stream="twin", checker="process",
+                                          what="the harness process died on the adaptor or on its underlying twin: %s %s" % (dead_a.get(cid), dead_t.get(cid))))
+            continue
+        compared += 1
+        ea = [norm_line(l) for l in la if l.startswith("E ")]
+        et = [norm_line(l) for l in lt if l.startswith("E ")]
+        if ea != et:
+            k = next((i for i in range(max(len(ea), len(et))) if (ea[i] if i < len(ea) else None) != (et[i] if i < len(et) else None)), 0)
+            out["violations"].append(dict(case=c, stream="twin", checker="twin", impl_trace=la, model_trace=lt,
+                                          what="the adaptor and the underlying iterator, driven by the same operations under the same schedule, differ at event %d: adaptor `%s` / underlying `%s`"
+                                               % (k, ea[k] if k < len(ea) else "<nothing>", et[k] if k < len(et) else "<nothing>")))
+            continue
+        d = first_diff(lt, la)
+        if d is not None:
+            out["divergences"].append(dict(case=c, stream="twin", impl_trace=la, model_trace=lt,
+                                           what="adaptor and underlying iterator perform different shared-memory accesses at line %d: underlying `%s` / adaptor `%s`" % d))
+    out["evaluations"] += compared
+    out["traces_validated_against_impl"] += compared
+    extra_coverage.setdefault(prop, {})["twin_comparisons"] = compared
+
+
+SPECIAL["C13"] = special_c13
